@@ -378,18 +378,11 @@ func verifClientWorld(p parser.Parser, nsps ...string) (*Manager, map[string]*cl
 	}
 	out := map[string]*clientSocket{}
 	for _, n := range nsps {
-		s := &clientSocket{
-			state:         clientSocketConnStateConnected,
-			config:        &ClientSocketConfig{},
-			namespace:     n,
-			manager:       m,
-			parser:        p,
-			acks:          make(map[uint64]*ackHandler),
-			eventHandlers: newEventHandlerStore(),
-			debug:         newNoopDebugger(),
-		}
-		s.sendBuffers = s._sendBuffers
-		m.sockets.set(s)
+		// the real constructor (handler stores, retry queue, send hook); then marked connected
+		s := m.socket(n, nil)
+		s.stateMu.Lock()
+		s.state = clientSocketConnStateConnected
+		s.stateMu.Unlock()
 		out[n] = s
 	}
 	return m, out
